@@ -80,7 +80,8 @@ type Downstream struct {
 
 	closedNotified sync.Once // the closed event is delivered once, whichever close path gets there first
 
-	readMu sync.RWMutex // held (shared) while a read books a chunk it took from the queue; Close changes the state under it
+	readMu  sync.RWMutex // held (shared) while a read books a chunk it took from the queue; Close changes the state under it
+	flushMu sync.Mutex   // serialises the ack flushes (held during the write, unlike mu)
 }
 
 // Stateは、Downstreamが保持している内部の状態を返却します。
@@ -358,10 +359,14 @@ func (d *Downstream) pushResultAckBuffer(res *message.DownstreamChunkResult) {
 }
 
 func (d *Downstream) flushAck() error {
+	// one flush at a time (the ack ids reach the wire in order); the stream's lock is not held during the write:
+	// reads, State and Close do not wait for a peer that has stopped reading
+	d.flushMu.Lock()
+	defer d.flushMu.Unlock()
 	d.mu.Lock()
-	defer d.mu.Unlock()
 
 	if len(d.dataIDAckBuffer) == 0 && len(d.resultAckBuffer) == 0 && len(d.upstreamInfoAckBuffer) == 0 {
+		d.mu.Unlock()
 		return nil
 	}
 
@@ -377,12 +382,24 @@ func (d *Downstream) flushAck() error {
 	d.dataIDAckBuffer = make(map[uint32]*message.DataID)
 	d.resultAckBuffer = make([]*message.DownstreamChunkResult, 0)
 
-	err := d.wireConn.SendDownstreamDataPointsAck(d.ctx, ack)
+	wireConn := d.wireConn
+	d.mu.Unlock()
+
+	err := wireConn.SendDownstreamDataPointsAck(d.ctx, ack)
 	if err != nil {
-		// not sent (the connection is gone): what it carried is still owed and goes out with the next flush
+		// not sent (the connection is gone): what it carried is still owed and goes out with the next flush,
+		// in front of what has been booked meanwhile
+		d.mu.Lock()
+		for k, v := range d.upstreamInfoAckBuffer {
+			ack.UpstreamAliases[k] = v
+		}
+		for k, v := range d.dataIDAckBuffer {
+			ack.DataIDAliases[k] = v
+		}
 		d.upstreamInfoAckBuffer = ack.UpstreamAliases
 		d.dataIDAckBuffer = ack.DataIDAliases
-		d.resultAckBuffer = ack.Results
+		d.resultAckBuffer = append(ack.Results, d.resultAckBuffer...)
+		d.mu.Unlock()
 	}
 	return err
 }
